@@ -120,7 +120,7 @@ def judge(acc, name, inst, rp, G_in, before, out, lang, L, phase=None, prev=None
 PHASE_FUNCS = ['cfg_add_new_start_variable', 'cfg_remove_epsilon_rules', 'cfg_eliminate_unit_rules', 'cfg_make_rules_of_length_two', 'cfg_eliminate_terminals']
 
 
-def check(acc, spec, L, mode='plain', depth=0, only=None):
+def check(acc, spec, L, mode='plain', depth=0, only=None, epsilon='ε'):
     import gambatools.cfg_algorithms as ca
     from gambatools.notebook_chomsky import cfg_apply_chomsky
     inst0 = {'grammar': cfg.show(spec)}
@@ -134,9 +134,9 @@ def check(acc, spec, L, mode='plain', depth=0, only=None):
         if len(rules) >= 4:
             acc.sample({'grammar': cfg.show(spec), 'language_up_to_%d' % L: sorted(lang, key=lambda w: (len(w), w))[:6]})
     if mode == 'plain':
-        rp = {'fn': 'mc.props.c08:one', 'mode': 'plain', 'params': {'spec': spec, 'L': L}}
+        rp = {'fn': 'mc.props.c08:one', 'mode': 'plain', 'params': {'spec': spec, 'L': L, 'epsilon': epsilon}}
         # whole conversion
-        G = cfg.to_lib(spec)
+        G = cfg.to_lib(spec, epsilon)
         before = cfg.from_lib(G)
         ok, out = core.lib_call(acc, 'cfg_to_chomsky', inst0, ca.cfg_to_chomsky, G, repro=rp)
         acc.transitions += 1
@@ -147,7 +147,7 @@ def check(acc, spec, L, mode='plain', depth=0, only=None):
                 if msg:
                     acc.viol('cfg_to_chomsky', 'result is not in Chomsky normal form', inst0, repro=rp, observed={'reason': msg, 'result': cfg.show(g)[:300]})
         # phase chain through the public non-in-place functions
-        cur = cfg.to_lib(spec)
+        cur = cfg.to_lib(spec, epsilon)
         prev = spec
         for p, fname in enumerate(PHASE_FUNCS, 1):
             b = cfg.from_lib(cur)
@@ -167,7 +167,7 @@ def check(acc, spec, L, mode='plain', depth=0, only=None):
         for start in ('T', 'S'):
             g1 = None
             for p in range(1, 6):
-                G = cfg.to_lib(spec)
+                G = cfg.to_lib(spec, epsilon)
                 before = cfg.from_lib(G)
                 inst = dict(inst0, phase=p, start_variable=start)
                 ok, out = core.lib_call(acc, 'cfg_apply_chomsky', inst, cfg_apply_chomsky, G, p, start, repro=rp)
@@ -181,9 +181,9 @@ def check(acc, spec, L, mode='plain', depth=0, only=None):
                         acc.viol('cfg_apply_chomsky', 'postcondition of phase 1 violated', inst, repro=rp, observed={'reason': msg, 'result': cfg.show(g)[:300]})
     else:
         def execute(boost, native=False):
-            rp = {'fn': 'mc.props.c08:one_sched', 'mode': 'instr', 'params': {'spec': spec, 'L': L, 'boost': list(boost), 'native': native}}
+            rp = {'fn': 'mc.props.c08:one_sched', 'mode': 'instr', 'params': {'spec': spec, 'L': L, 'boost': list(boost), 'native': native, 'epsilon': epsilon}}
             inst = dict(inst0, schedule='native' if native else {'boost': list(boost)})
-            G = cfg.to_lib(spec)
+            G = cfg.to_lib(spec, epsilon)
             before = cfg.from_lib(G)
             st, out = common.sched_call(acc, 'cfg_to_chomsky', inst, ca.cfg_to_chomsky, G, boost=boost, native=native, rp=rp)
             if st == 'ok':
@@ -200,12 +200,12 @@ def check(acc, spec, L, mode='plain', depth=0, only=None):
         common.explore(acc, execute, depth)
 
 
-def one(acc, spec, L):
-    check(acc, tup(spec), L, 'plain')
+def one(acc, spec, L, epsilon='ε'):
+    check(acc, tup(spec), L, 'plain', epsilon=epsilon)
 
 
-def one_sched(acc, spec, L, boost=(), native=False):
-    check(acc, tup(spec), L, 'instr', 0, only=(boost, native))
+def one_sched(acc, spec, L, boost=(), native=False, epsilon='ε'):
+    check(acc, tup(spec), L, 'instr', 0, only=(boost, native), epsilon=epsilon)
 
 
 def t_space(acc, space, L, shard, nshard, stride=1, offset=0, mode='plain', depth=0):
@@ -213,10 +213,15 @@ def t_space(acc, space, L, shard, nshard, stride=1, offset=0, mode='plain', dept
         for v in (24, 25, 26, 27, 28):
             check(acc, cfg.cfg_big(v), L, mode, depth)
         return
-    gen = cfg.cfg3_units() if space == 'cfg3u' else cfg.cfg2(space == 'cfg2+')
+    gen = cfg.cfg3_units() if space == 'cfg3u' else (cfg.cfg4_units() if space == 'cfg4u' else cfg.cfg2(space == 'cfg2+'))
     for idx, spec in gen:
         if idx % stride == offset % stride and (idx // stride) % nshard == shard:
             check(acc, spec, L, mode, depth)
+            if mode == 'plain' and space.startswith('cfg2'):
+                if (idx // stride) % 8 == 1:
+                    check(acc, cfg.rename(spec, None, cfg.EPS_TERMINAL), L, mode, depth, epsilon='e')     # the character ε as a terminal
+                if (idx // stride) % 8 == 2:
+                    check(acc, cfg.rename(spec, {'A': 'X', 'S': 'XX'}), L, mode, depth)                   # multi-character variable names
 
 
 def plan(tier, seed):
@@ -230,12 +235,14 @@ def plan(tier, seed):
     add('big', 4, 1, mode='instr', depth=1)
     add('cfg3u', 3, 16, stride=4 if tier == 'quick' else 1)
     add('cfg3u', 3, 16, stride=4 if tier == 'quick' else 1, mode='instr', depth=2)
+    add('cfg4u', 2, 16, stride=8 if tier == 'quick' else 1)
+    add('cfg4u', 2, 16, stride=8 if tier == 'quick' else 1, mode='instr', depth=1)
     if tier == 'quick':
         add('cfg2', 4, 32, stride=16)
         add('cfg2+', 4, 32, stride=16)
         add('cfg2', 4, 16, stride=64, mode='instr', depth=1)
         add('cfg2+', 4, 16, stride=64, mode='instr', depth=1)
-        bounds = 'CFG2 and CFG2+ stride 1/16 (plain: conversion, 5 public phases chained, exercise path phases 1..5 with start T and S); stride 1/64 under the scheduler d<=1; CFGbig(24..28); three-variable unit-rule family CFG3u (6 912 grammars, unit cycles of length 2 and 3) stride 1/4, plain and under the scheduler d<=2; languages compared on words <= 4'
+        bounds = 'CFG2 and CFG2+ stride 1/16 (plain: conversion, 5 public phases chained, exercise path phases 1..5 with start T and S); stride 1/64 under the scheduler d<=1; CFGbig(24..28); one grammar in eight also with the character ε as a terminal (epsilon = e) / with multi-character variable names; four-variable unit-cycle family CFG4u stride 1/8; three-variable unit-rule family CFG3u (6 912 grammars, unit cycles of length 2 and 3) stride 1/4, plain and under the scheduler d<=2; languages compared on words <= 4'
     else:
         add('cfg2', 5, 128)
         add('cfg2+', 5, 128)
